@@ -2,7 +2,7 @@
    of every node have pairwise contradictory requirements, the leaf-first pass packs every subtree
    into the low bits, so the layout succeeds whenever the widest chain of scopes fits. *)
 From Coq Require Import ZArith List Bool Lia.
-Require Import Rig.Model.Base Rig.Model.BitField Rig.Spec.BitField.
+Require Import Rig.Generated.GenBitField Rig.Model.Base Rig.Model.BitField Rig.Spec.BitField.
 Require Import Rig.Proofs.BitFieldBits Rig.Proofs.BitFieldTree Rig.Proofs.BitFieldAssign
                Rig.Proofs.BitFieldAdd Rig.Proofs.BitFieldComplete.
 Import ListNotations.
@@ -575,7 +575,7 @@ Lemma assign_complete_exclusive st :
   widths_fit (s_len st) (s_tree st) (s_store st) ->
   exists st', assign_fields st = (st', None).
 Proof.
-  intros [W HI] Hex HU HW. unfold assign_fields, assign_fields_gen.
+  intros [W HI] Hex HU HW. unfold assign_fields, gen_scan_orig, assign_fields_gen.
   rewrite (first_pass_noop _ _ _ _ _ W HU _ (bfs_nodes_ok _)).
   destruct (post_pass (s_len st) (s_tree st) _ W (s_tree st) [] (s_store st)) as [s' [E _]]; auto.
   - apply (wf_nodup _ _ W).
